@@ -228,6 +228,13 @@ fn gen_obj(rng: &mut Rng, k: &Knobs) -> ObjSpec {
 
 fn dirty_vals(rng: &mut Rng, k: &Knobs) -> Vals {
     let mut v = gen_vals(rng, k);
+    // zeros of either sign in the prior contents of the target (and as start values)
+    if rng.chance(0.1) {
+        v.a = if rng.chance(0.5) { -0.0 } else { 0.0 };
+    }
+    if rng.chance(0.1) {
+        v.b = if rng.chance(0.5) { -0.0 } else { 0.0 };
+    }
     v.tag = rng.next_u64() as u32;
     v
 }
@@ -258,6 +265,25 @@ fn generate(rng: &mut Rng, property: &str, deep: bool) -> Scn {
     // keyframes - the same property keyframed twice at one position - which the other checks keep
     // out of their domain (their reference semantics does not define the value *at* the step).
     // Whatever mina answers there, it has to answer the same after any history.
+    if property == "C09" && rng.chance(0.15) {
+        // a keyframe value that is a zero of either sign
+        let i = rng.usize_below(pool.len());
+        let tl = match &mut pool[i] {
+            ObjSpec::Single(tl) => Some(tl),
+            ObjSpec::Merged(m) if !m.parts.is_empty() => {
+                let j = rng.usize_below(m.parts.len());
+                Some(&mut m.parts[j])
+            }
+            ObjSpec::Merged(_) => None,
+        };
+        if let Some(tl) = tl {
+            for kf in tl.kfs.iter_mut() {
+                if kf.a.is_some() && !kf.via_from && rng.chance(0.5) {
+                    kf.a = Some(if rng.chance(0.5) { -0.0 } else { 0.0 });
+                }
+            }
+        }
+    }
     if property == "C09" && rng.chance(0.2) {
         let i = rng.usize_below(pool.len());
         let tl = match &mut pool[i] {
@@ -674,8 +700,10 @@ fn execute(scn: &Scn, property: &str) -> RunOutcome {
                         let got = oracle::get_prop(&target, prop);
                         if merged.keyframes_prop(prop) {
                             let want = oracle::get_prop(&exp, prop);
+                            // bit for bit: the same computation on the same inputs - the sign of a
+                            // zero included, which `==` cannot see
                             let same = match (got, want) {
-                                (PropVal::F(x), PropVal::F(y)) => x == y,
+                                (PropVal::F(x), PropVal::F(y)) => x.to_bits() == y.to_bits(),
                                 (x, y) => x == y,
                             };
                             if !same {
